@@ -2,7 +2,7 @@
 import ast
 
 from ..model import AnchorError, call_name, const_str, dotted, src, parent, walk_no_nested
-from ..rules import FuncView, defect_scope
+from ..rules import transparent_override, FuncView, defect_scope
 from .. import defects
 from . import _http
 
@@ -105,7 +105,7 @@ def check(ctx):
     ctx.check(ok, "T1-contain", pm, "parseMessage: except HTTPException: errored = True; error = str(ex)", "a failed request is marked, not raised")
     for modn, cn in (("aio.http.serving", "Requestant"), ("aio.http.clienting", "Respondent")):
         c = ctx.cls(modn, cn)
-        ctx.check("parseMessage" not in c.methods, "T1-contain", c.node, "%s inherits Parsent.parseMessage" % cn, "an override would need its own containment")
+        ctx.check("parseMessage" not in c.methods or transparent_override(c.methods["parseMessage"]), "T1-contain", c.node, "%s inherits Parsent.parseMessage" % cn, "an override would need its own containment")
     sr = ctx.cls("aio.http.serving", "Valet").own_method("serviceReqs")
     V = FuncView(ctx, sr, may_raise=lambda n: ["HTTPException"] if any(isinstance(x, ast.Call) and call_name(x) == "requestant.parse" for x in ast.walk(n)) else None)
     hs = [h for h in V.cfg.nodes if h.kind == "except"]
